@@ -60,7 +60,7 @@ static void model_after_restrict(hwloc_topology_t t, Model &model) {
 
 void h_run(Case &c) {
   Draw &d = c.head;
-  static const char *syns[] = {"pack:2 [numa] [numa] core:2 pu:2", "[numa] pack:2 [numa] l3:2 [numa] pu:2", "numa:4 pu:2", "pack:3 [numa] pu:1", "pu:4", "pack:2 numa:2 core:2 pu:1", "[numa(memory=4GB)] [numa] pack:2 [numa(memory=256MB)] core:2 pu:2"};
+  static const char *syns[] = {"pack:2 [numa] [numa] core:2 pu:2", "[numa] pack:2 [numa] l3:2 [numa] pu:2", "numa:4 pu:2", "pack:3 [numa] pu:1", "pu:4", "pack:2 numa:2 core:2 pu:1", "[numa(memory=4GB)] [numa] pack:2 [numa(memory=256MB)] core:2 pu:2", "[numa(indexes=0,2,1)] pack:2 [numa] pu:4", "[numa(indexes=2,0,3,1,4,6,5)] pack:2 [numa] die:2 [numa] pu:2", "pack:2 [numa(indexes=1,5,0,3,4,2)] core:2 [numa] pu:2"};
   const char *syn = d.pick(syns); c.descf("synthetic=\"%s\"", syn);
   hwloc_topology_t t; hwloc_topology_init(&t); hwloc_topology_set_synthetic(t, syn);
   // (NO_MEMATTRS removes the predefined attributes the model starts from, so only the two other NO_* flags are generated here; F-C13-c)
